@@ -2773,6 +2773,7 @@ public:
     locks_t &get_current_locks() { return map_.get().get_current_locks(); }
 
     void bump_resize_counter() {
+      LIBCUCKOO_VERIF_HOOK(LIBCUCKOO_VH_FA_RC, &map_.get(), 0, 0);
       map_.get().resize_counter_.fetch_add(1, std::memory_order_release);
     }
 
